@@ -810,18 +810,21 @@ func (pe *PEngine) discharge(p *pci) (bool, []string, string) {
 		return false, fs.strings(), "no static argument available for this kind"
 	}
 	var failed []string
+	var failedGoals []*lin
 	for i, g := range p.goals {
 		if g.isConst() && g.c.Sign() >= 0 {
 			continue
 		}
 		if !pf.proveAt(p.ins.Block(), pgoal{l: g}, nil, 0) {
 			failed = append(failed, p.gdesc[i]+"  i.e. "+descLin(g)+" >= 0")
+			failedGoals = append(failedGoals, g)
 		}
 	}
 	if len(failed) == 0 {
 		return true, nil, ""
 	}
-	if ok, why := pe.liftToCallers(p); ok {
+	// what the function's own guards leave open must hold at every call site
+	if ok, why := pe.liftToCallers(p, failedGoals); ok {
 		return true, []string{why}, ""
 	}
 	return false, fs.strings(), "cannot prove: " + strings.Join(failed, "; ")
@@ -909,7 +912,7 @@ func (pe *PEngine) divisorGuardedAtCallers(p *pci) (bool, string) {
 // liftToCallers: when every goal of the PCI mentions only parameters of its function (and
 // constants), the obligation is a precondition; it is discharged if the function is not
 // exported API surface and every call site in the module satisfies it.
-func (pe *PEngine) liftToCallers(p *pci) (bool, string) {
+func (pe *PEngine) liftToCallers(p *pci, goals []*lin) (bool, string) {
 	// every atom must be a function of the parameters and of memory as it is on entry
 	var transl func(a *vn, depth int) bool
 	transl = func(a *vn, depth int) bool {
@@ -934,7 +937,7 @@ func (pe *PEngine) liftToCallers(p *pci) (bool, string) {
 		}
 		return true
 	}
-	for _, g := range p.goals {
+	for _, g := range goals {
 		for _, a := range g.atoms {
 			if !transl(a, 0) {
 				return false, ""
@@ -964,7 +967,7 @@ func (pe *PEngine) liftToCallers(p *pci) (bool, string) {
 		if !ok {
 			return false, ""
 		}
-		for _, g := range p.goals {
+		for _, g := range goals {
 			cg := newLin()
 			cg.c.Set(g.c)
 			for k, co := range g.coef {
